@@ -276,11 +276,11 @@ class Linearization(Operator):
         if other.jac is None:
             return self.new(
                 self._val.vdot(other),
-                VdotOperator(other)(self._jac))
+                VdotOperator(other)(self._jac).conjugate())
         return self.new(
             self._val.vdot(other._val),
             VdotOperator(self._val)(other._jac) +
-            VdotOperator(other._val)(self._jac))
+            VdotOperator(other._val)(self._jac).conjugate())
 
     def sum(self, spaces=None):
         """Computes the (partial) sum over self
